@@ -45,18 +45,18 @@ class OtherDenied(OtherHier):       # same code in another hierarchy, registered
     message = 'other'
 
 
-def real_id(ref, n):
+def real_id(ref, n, base=1):
     if ref == UNK:
         return 99
     if ref == CONF:
-        return '1'
+        return str(base)
     if ref == NULL:
         return None
-    return ref + 1
+    return ref + base
 
 
-def entry_obj(ref, ok, pos, n):
-    id = real_id(ref, n)
+def entry_obj(ref, ok, pos, n, base=1):
+    id = real_id(ref, n, base)
     o = {'jsonrpc': '2.0', 'id': id}
     if ok:
         o['result'] = {'for': id, 'pos': pos}
@@ -77,6 +77,10 @@ def gen_cases(ctx):
                         yield dict(part='batch', kind=kind, strict=strict, n=n, notif=False, via='call', entries=entries)
                     if L <= n:
                         yield dict(part='batch', kind=kind, strict=True, n=n, notif=False, via='call', entries=entries, custom=True)
+                    # ids starting at 0 (sequential(start=0)): the first call has a falsy id
+                    yield dict(part='batch', kind=kind, strict=True, n=n, notif=False, via='call', entries=entries, base=0)
+                    if kind == 'sync':
+                        yield dict(part='batch', kind=kind, strict=False, n=n, notif=False, via='send', entries=entries, base=0)
                 # send() and a notification inside the batch: sync strict carries the load, others sampled by permutation docs
                 distinct = len({r for r, _ in entries}) == len(entries)
                 if distinct or L <= n:
@@ -139,7 +143,8 @@ def has_dup(ids):
 
 def run_batch(c, rec):
     n, strict, entries = c['n'], c['strict'], [tuple(e) for e in c['entries']]
-    doc = [entry_obj(r, ok, pos, n) for pos, (r, ok) in enumerate(entries)]
+    base = c.get('base', 1)
+    doc = [entry_obj(r, ok, pos, n, base) for pos, (r, ok) in enumerate(entries)]
     expect_deser = False
     if 'junk' in c:
         pos, j = c['junk']
@@ -153,7 +158,10 @@ def run_batch(c, rec):
     else:
         body = json.dumps(doc)
 
-    client = make_client(c['kind'], lambda text, is_notif, kw: body, strict=strict, custom=bool(c.get('custom')))
+    import functools
+    from pjrpc.common import generators
+    idkw = dict(id_gen_impl=functools.partial(generators.sequential, start=0)) if base == 0 else {}
+    client = make_client(c['kind'], lambda text, is_notif, kw: body, strict=strict, custom=bool(c.get('custom')), **idkw)
     batch = client.batch
     requests = None
     if c['via'] == 'call':
@@ -164,7 +172,7 @@ def run_batch(c, rec):
         out = drive(c["kind"], batch.call)
     else:
         # a hand-built batch request sent through a fresh batch wrapper (nothing was add()ed to it)
-        req = BatchRequest(*[Request('m%d' % i, [i], id=i + 1) for i in range(n)])
+        req = BatchRequest(*[Request('m%d' % i, [i], id=i + base) for i in range(n)])
         requests = list(req)
         out = drive(c["kind"], lambda: batch.send(req))
     rec.transitions += 1
@@ -180,8 +188,8 @@ def run_batch(c, rec):
         return bad(rec, c, 'C08:batch:%d transport calls for one batch' % len(client.sent), 1, len(client.sent))
     sent = json.loads(client.sent[0][0])
     sent_ids = [e.get('id') for e in sent if 'id' in e]
-    if not typed_eq(sent_ids, list(range(1, n + 1))):
-        return bad(rec, c, 'C08:batch:request ids are not 1..n in call order', list(range(1, n + 1)), sent_ids)
+    if not typed_eq(sent_ids, list(range(base, n + base))):
+        return bad(rec, c, 'C08:batch:request ids are not consecutive in call order', list(range(base, n + base)), sent_ids)
 
     # ---- reference S4 ----
     if expect_deser:
@@ -209,10 +217,10 @@ def run_batch(c, rec):
             return bad(rec, c, 'C08:batch:batch-level error not raised for the batch', 'error %s' % c['level'], show(got))
         return got[0]
 
-    ids = [real_id(r, n) for r, _ in entries]
+    ids = [real_id(r, n, base) for r, _ in entries]
     nonnull = [i for i in ids if i is not None]
     dup = has_dup(nonnull)
-    call_ids = list(range(1, n + 1))
+    call_ids = list(range(base, n + base))
     exact = not dup and len(nonnull) == n and all(any(typed_eq(i, c_) for i in nonnull) for c_ in call_ids)
     has_null = len(nonnull) != len(ids)
     by_id = {}
@@ -270,8 +278,8 @@ def run_batch(c, rec):
     if exact:
         for i in range(n):
             r = resp[i]
-            if not typed_eq(r.id, i + 1) or r.related is not requests[i]:
-                return bad(rec, c, 'C08:batch:response at position i is not the response to call i', 'id %d related to call %d' % (i + 1, i),
+            if not typed_eq(r.id, i + base) or r.related is not requests[i]:
+                return bad(rec, c, 'C08:batch:response at position i is not the response to call i', 'id %d related to call %d' % (i + base, i),
                            [(x.id, getattr(x.related, 'id', None)) for x in resp])
         it_ids = [r.id for r in resp]
         if not typed_eq(it_ids[:n], call_ids):
